@@ -55,7 +55,7 @@ def SeqPage.WF (p : SeqPage) : Prop :=
   (-(2 ^ 63 : Int) ≤ p.st.lastValue ∧ p.st.lastValue < 2 ^ 63) ∧
   (-(2 ^ 63 : Int) ≤ p.st.logCnt ∧ p.st.logCnt < 2 ^ 63)
 
-instance (p : SeqPage) : Decidable p.WF := by unfold SeqPage.WF; infer_instance
+instance SeqPage.decWF (p : SeqPage) : Decidable p.WF := by unfold SeqPage.WF; infer_instance
 
 /-- what a reader must report -/
 structure SeqView where
